@@ -9,7 +9,13 @@ RULE = ("K: fdtdx.place_objects on generated scenes: symmetry tuple from all 27 
         "unreduced_grid_slice_tuple), straddles_symmetry_plane, the wall objects (class, name, axis, direction, slice, flag), "
         "absence of PMC objects, order of the placed list. All compared exactly with the model's reduceSlices / wallAxes / "
         "wallSlice / wallNames and with an independent cell-set oracle (intersection of cell ranges with the upper half). "
-        "non-trivial = some symmetric axis with a dropped, clipped or plane-touching object, an error, or a name clash.")
+        "non-trivial = some symmetric axis with a dropped, clipped or plane-touching object, an error, or a name clash. "
+        "Explicit non-uniform grids: RectilinearGrid.custom(..).reduce_symmetric(sym) for every axis subset / wall kind on "
+        "generated edge arrays (2..9 cells per axis, odd and even, physical scales 1e-9..1, mirror-symmetric widths, and one "
+        "width perturbed by a relative 0, 5e-5, 9e-5, 1.1e-4, 2e-4 or 1e-2 around the 1e-4 tolerance); outcome (kept edges of "
+        "all three axes, or which axis is rejected for its cell count / its widths) compared exactly with the model's "
+        "reduceEdges on binary64 and with a numpy oracle (upper-half edges, mirrored reduced widths reproduce the full "
+        "widths within the tolerance, reduced cell count n/2); a few of them through place_objects(config.grid=explicit grid).")
 
 _J = None
 AX = "xyz"
@@ -202,6 +208,17 @@ def property_fails(case, got=None):
     for w in got["walls"]:
         if w["cls"] != "PerfectElectricConductor" or w["direction"] != "-" or not w["flag"]:
             return f"wall {w} is not a flagged min-side PEC"
+    taken = set(got["nonwall"])
+    for w in got["walls"]:      # documented naming: _sym_wall_<axis>, then _sym_wall_<axis>_1, _2, ... (first free)
+        base, k, want = f"_sym_wall_{AX[w['axis']]}", 0, None
+        while want is None:
+            cand = base if k == 0 else f"{base}_{k}"
+            if cand not in taken:
+                want = cand
+            k += 1
+        if w["name"] != want:
+            return f"wall on axis {AX[w['axis']]} is called {w['name']!r}, the first free documented name is {want!r}"
+        taken.add(want)
     if got["pmc"] != 0:
         return "a PMC object was created"
     names = got["order"]
@@ -211,6 +228,149 @@ def property_fails(case, got=None):
     if names[0] != "vol" or names[1:1 + len(kept)] != kept:
         return f"placed order {names}, expected volume, {kept}, walls"
     return None
+
+
+# ------------------------------------------------------------------- explicit grids: reduce_symmetric
+RTOL = 1e-4
+DELTAS = [0.0, 0.0, 0.0, 0.0, 0.0, 5e-5, 9e-5, 9e-5, 1.1e-4, 2e-4, 1e-2]
+
+
+def gen_grid(rng, force_sym=None):
+    import numpy as np
+    sym = list(force_sym) if force_sym is not None else list(rng.choice(ALL27))
+    scale = rng.choice([1.0, 1e-3, 25e-9, 3.7e-7])
+    axes = []
+    for a in range(3):
+        n = rng.choice([2, 4, 4, 6, 8]) if rng.chance(0.9) else rng.choice([1, 3, 5, 9])
+        half = [scale * rng.uniform(0.5, 2.0) for _ in range((n + 1) // 2)]
+        w = (half[::-1] + half) if n % 2 == 0 else (half[::-1] + half[1:])
+        if rng.chance(0.15):                       # uniform axis
+            w = [scale] * n
+        delta = rng.choice(DELTAS) * rng.choice([1, -1])
+        k = rng.randint(0, n - 1)
+        w[k] = w[k] * (1.0 + delta)
+        origin = scale * rng.uniform(-3, 3)
+        edges = [float(x) for x in (origin + np.concatenate([[0.0], np.cumsum(np.asarray(w))]))]
+        axes.append({"n": n, "delta": delta, "k": k, "edges": edges})
+    return {"op": "grid", "sym": sym, "axes": axes}
+
+
+def grid_impl(case, via_place=False):
+    """('ok', [edges x3]) or ('error', kind, axis) from the real code"""
+    import numpy as np
+    j = J()
+    jnp, fdtdx, jax = j["jnp"], j["fdtdx"], j["jax"]
+    from fdtdx.core.grid import RectilinearGrid
+    g = RectilinearGrid.custom(*[jnp.asarray(ax["edges"], dtype=jnp.float64) for ax in case["axes"]])
+    try:
+        if via_place:
+            cfg = fdtdx.SimulationConfig(grid=g, time=1e-18, dtype=jnp.float64, symmetry=tuple(case["sym"]))
+            vol = fdtdx.SimulationVolume(name="vol", partial_grid_shape=tuple(ax["n"] for ax in case["axes"]))
+            oc, arrays, _p, cfg2, _i = fdtdx.place_objects(object_list=[vol], config=cfg, constraints=[], key=jax.random.PRNGKey(0))
+            r = cfg2.grid
+            if tuple(arrays.fields.E.shape[1:]) != tuple(r.shape):
+                return ("error", f"field shape {arrays.fields.E.shape} vs grid {r.shape}", -1)
+        else:
+            r = g.reduce_symmetric(tuple(case["sym"]))
+    except ValueError as e:
+        msg = str(e)
+        kind = "cells" if "even number of" in msg else "widths" if "mirror-symmetric" in msg else "other:" + msg[:80]
+        axis = next((a for a in range(3) if f"on axis {AX[a]}" in msg), -1)
+        return ("error", kind, axis)
+    return ("ok", [[float(x) for x in np.asarray(r.edges(a))] for a in range(3)])
+
+
+def grid_oracle(case, via_place=False):
+    import numpy as np
+    out = []
+    if via_place:   # place_objects validates the cell counts of every symmetric axis (slice reduction) before the grid
+        for a in range(3):
+            n = case["axes"][a]["n"]
+            if case["sym"][a] != 0 and (n < 2 or n % 2):
+                return ("error", "cells", a)
+    for a in range(3):
+        e = np.asarray(case["axes"][a]["edges"])
+        if case["sym"][a] == 0:
+            out.append(list(e))
+            continue
+        n = len(e) - 1
+        if n < 2 or n % 2:
+            return ("error", "cells", a)
+        w = np.diff(e)
+        if not all(abs(w[i] - w[n - 1 - i]) <= RTOL * abs(w[n - 1 - i]) for i in range(n)):
+            return ("error", "widths", a)
+        out.append(list(e[n // 2:]))
+    return ("ok", out)
+
+
+def grid_property_fails(case, got=None, via_place=False):
+    import numpy as np
+    got = grid_impl(case, via_place) if got is None else got
+    exp = grid_oracle(case, via_place)
+    if exp[0] == "error":
+        return None if got == exp else f"grid {case['sym']}: expected rejection {exp[1:]} (axis cells {[ax['n'] for ax in case['axes']]}, deltas {[ax['delta'] for ax in case['axes']]}), got {str(got)[:120]}"
+    if got[0] != "ok":
+        return f"accepted-by-specification grid rejected: {got[1:]} (deltas {[ax['delta'] for ax in case['axes']]})"
+    for a in range(3):
+        e, r = np.asarray(case["axes"][a]["edges"]), np.asarray(got[1][a])
+        if not np.array_equal(r, np.asarray(exp[1][a])):
+            return f"axis {AX[a]}: reduced edges are not the upper-half edges"
+        if case["sym"][a] != 0:
+            wr, w = np.diff(r), np.diff(e)
+            if len(wr) * 2 != len(w):
+                return f"axis {AX[a]}: reduced cell count {len(wr)} != n/2"
+            full = np.concatenate([wr[::-1], wr])
+            if not np.all(np.abs(full - w) <= RTOL * np.abs(w) * (1 + 1e-9)):
+                return f"axis {AX[a]}: mirroring the reduced widths does not reproduce the full widths within {RTOL}"
+    return None
+
+
+def grid_model_lines(case):
+    from .common import f2h
+    return [f"grid {case['sym'][a]} {f2h(RTOL)} " + " ".join(f2h(x) for x in case["axes"][a]["edges"]) for a in range(3)]
+
+
+def grid_model_result(reps, via_place=False):
+    from .common import h2f
+    out = []
+    if via_place:
+        for a, rep in enumerate(reps):
+            if rep == "error cells":
+                return ("error", "cells", a)
+    for a, rep in enumerate(reps):
+        t = rep.split()
+        if t[0] == "error":
+            return ("error", t[1], a)
+        if t[0] != "ok":
+            return ("model", rep, a)
+        out.append([h2f(x) for x in t[1:]])
+    return ("ok", out)
+
+
+def run_grids(ctx):
+    n = ctx.scale(40, 400)
+    syms = ctx.rng.shuffle([s for s in ALL27 if any(s)])
+    cases = [gen_grid(ctx.rng, force_sym=syms[i % len(syms)]) for i in range(n)]
+    lines, gots = [], []
+    for i, case in enumerate(cases):
+        via_place = i < ctx.scale(4, 30)
+        got = grid_impl(case, via_place)
+        gots.append(got)
+        lines += grid_model_lines(case)
+        nt = (tuple(case["sym"]), got[0], got[1] if got[0] == "error" else "",
+              tuple(ax["delta"] != 0 for ax in case["axes"]))
+        ctx.case(sample={"op": "grid", "sym": case["sym"], "cells": [ax["n"] for ax in case["axes"]],
+                         "deltas": [ax["delta"] for ax in case["axes"]], "outcome": got[:2] if got[0] == "error" else "ok"}
+                 if i in (0, 5) else None,
+                 nontrivial=nt, op="grid", grid_outcome=(got[0] if got[0] == "ok" else got[1]), via_place=via_place)
+        ctx.impl_property_evals += 1
+        d = grid_property_fails(case, got, via_place)
+        if d:
+            ctx.violation({**case, "via_place": via_place}, d)
+    reps = ctx.driver.ask_many(lines)
+    for i, case in enumerate(cases):
+        m = grid_model_result(reps[3 * i: 3 * i + 3], i < ctx.scale(4, 30))
+        ctx.expect_equal("grid", {**case, "via_place": i < ctx.scale(4, 30)}, str(gots[i]), str(m))
 
 
 # ------------------------------------------------------------------------------------------- K
@@ -277,10 +437,40 @@ def run(ctx):
     reps = ctx.driver.ask_many(lines)
     for (op, case, im), rep in zip(cmps, reps):
         ctx.expect_equal(op, case, im, rep)
+    run_grids(ctx)
 
 
 # ------------------------------------------------------------------------------------------- S
 def search(ctx, hints):
+    for h in hints:
+        if isinstance(h, dict) and h.get("op") == "grid":
+            d = grid_property_fails(h, via_place=h.get("via_place", False))
+            if d:
+                ctx.violation(h, d)
+                return
+    # explicit grids: one symmetric axis, 2 then 4 cells, each perturbation size
+    for n in (2, 4, 3):
+        for a in range(3):
+            for delta in (0.0, 9e-5, -9e-5, 1.1e-4, -1.1e-4, 1e-2):
+                for k in range(n):
+                    axes = []
+                    for b in range(3):
+                        m = n if b == a else 2
+                        w = [1.0] * m
+                        if b == a:
+                            w[k] *= 1.0 + delta
+                        edges = [0.0]
+                        for x in w:
+                            edges.append(edges[-1] + x)
+                        axes.append({"n": m, "delta": delta if b == a else 0.0, "k": k, "edges": edges})
+                    sym = [0, 0, 0]
+                    sym[a] = -1
+                    case = {"op": "grid", "sym": sym, "axes": axes}
+                    ctx.impl_property_evals += 1
+                    d = grid_property_fails(case)
+                    if d:
+                        ctx.violation(case, d)
+                        return
     for h in hints:
         if isinstance(h, dict) and "vshape" in h:
             d = property_fails(h)
@@ -317,4 +507,6 @@ def search(ctx, hints):
 
 
 def replay(ctx, inp):
+    if inp.get("op") == "grid":
+        return grid_property_fails(inp, via_place=inp.get("via_place", False))
     return property_fails(inp)
